@@ -97,7 +97,7 @@ Definition print_fmt (f : fmt) (sw : switches) (m0 : zmesh) : option (list zline
   | Foff => Some (@print_off Z Z (Z * Z) (Z * Z) idZ m)
   | Ftet => Some (@print_tet Z Z (Z * Z) (Z * Z) idZ m)
   | Fmedit => @print_medit Z Z (Z * Z) (Z * Z) idZ m
-  | Fgeo => if forallb (len_is 4) (mC m0) then Some (map (fun t => [t]) (zprint_geo m)) else None
+  | Fgeo => Some (map (fun t => [t]) (zprint_geo m))
   end.
 
 Definition parse_fmt (f : fmt) (ls : list zline) : option zraw :=
